@@ -71,8 +71,9 @@ Definition flag_value (v : pyval) (atts : Z) : result Z :=
   | _ => Raise EType
   end.
 
-(* budget of loop iterations / field visits: the model refuses (EOther) beyond it *)
-Definition budget : nat := N.to_nat 2000000.
+(* The model is executable only up to a bound on group repeat counts: `budget` is a parameter of
+   the walk; a group whose count exceeds it makes the model decline with EOther.  The real code has
+   no such bound; theorems hold for every budget. *)
 
 Section Walk.
 Variable atttype : list (N * list kind).
@@ -85,6 +86,7 @@ Variable cls id : bytes.
 Variable mode : N.
 Variable bf : bool.                            (* parsebitfield *)
 Variable kw : option attrs.                    (* None: payload route; Some kw: keyword route *)
+Variable budget : nat.
 
 Record wst := { w_off : nat; w_pay : bytes; w_attrs : attrs }.
 
@@ -275,6 +277,7 @@ Fixpoint walk (idx : list nat) (d : adef) (s : wst) {struct d} : result wst :=
         match count r body s with
         | Raise e => Raise e
         | Ok c =>
+          if Z.of_nat budget <? c then Raise EOther else
           (fix rep_loop (fuel : nat) (i : Z) (s0 : wst) : result wst :=
              match fuel with
              | O => Raise EOther
